@@ -85,8 +85,8 @@ pub fn build_kernel(plan: &Plan) -> Kernel {
     k.add_dir(b"/bin", true);
     for e in &plan.fs {
         match &e.node {
-            Node::Dir { searchable } => k.add_dir(e.path.as_bytes(), *searchable),
-            n => k.add_node(e.path.as_bytes(), n.clone()),
+            Node::Dir { searchable } => k.add_dir(&e.bytes(), *searchable),
+            n => k.add_node(&e.bytes(), n.clone()),
         }
     }
     {
@@ -106,6 +106,10 @@ fn set_parent_env(plan: &Plan) {
     }
     for (k, v) in &plan.parent.env {
         std::env::set_var(k, v);
+    }
+    if let Some(raw) = &plan.parent.path_raw {
+        use std::os::unix::ffi::OsStringExt;
+        std::env::set_var("PATH", std::ffi::OsString::from_vec(raw.clone()));
     }
 }
 
